@@ -2,9 +2,37 @@
 
 package metrics
 
+import "fmt"
+
 // VerifPreimage returns the bytes GetTSID hashed (valid right after GetTSID).
 func (th *TagsHolder) VerifPreimage() []byte {
 	out := make([]byte, th.buf.Len())
 	copy(out, th.buf.Bytes())
+	return out
+}
+
+// VerifFlushDpWalBuffers appends the buffered datapoints of every open block to its WAL file, exactly as
+// timeBasedWalDPSFlush does once a second.
+func VerifFlushDpWalBuffers() error {
+	for _, ms := range GetAllMetricsSegments() {
+		ms.mBlock.dpWalState.lock.Lock()
+		if ms.mBlock.dpWalState.dpIdx > 0 {
+			if err := ms.mBlock.dpWalState.currentWal.Append(ms.mBlock.dpWalState.dpsInWalMem[0:ms.mBlock.dpWalState.dpIdx]); err != nil {
+				ms.mBlock.dpWalState.lock.Unlock()
+				return err
+			}
+			ms.mBlock.dpWalState.dpIdx = 0
+		}
+		ms.mBlock.dpWalState.lock.Unlock()
+	}
+	return nil
+}
+
+// VerifSegKeys returns the key (file name prefix) of every open metrics segment.
+func VerifSegKeys() []string {
+	var out []string
+	for _, ms := range GetAllMetricsSegments() {
+		out = append(out, fmt.Sprintf("%s%d", ms.metricsKeyBase, ms.Suffix))
+	}
 	return out
 }
